@@ -22,11 +22,16 @@ REFILL = mc("MC_Refill", "MC_Refill.cfg", "MC_Refill_t.cfg")
 COLUMNS = mc("MC_Columns", "MC_Columns.cfg", "MC_Columns_t.cfg")
 INPLACE = mc("MC_Inplace", "MC_Inplace.cfg", "MC_Inplace_t.cfg")
 
+# termination of every step machine under weak fairness (PROPERTY Terminates); the quick tier runs the cheap ones
+LIVE_QUICK = [mc(m, m + "_live.cfg", m + "_live.cfg") for m in ["MC_Refill", "MC_Inplace", "MC_Columns", "MC_FirstFit", "MC_Ansi", "MC_Indent"]]
+LIVE_THOROUGH = [mc(m, None, m + "_live.cfg") for m in ["MC_Wrap", "MC_Break", "MC_Words", "MC_Optimal"]]
+
 PROPS = {
     "C01": {"builds": BOTH, "mc": WRAP},
     "C02": {"builds": BOTH, "mc": WRAP + [ANSI]},
     "C03": {"builds": ["full"], "mc": OPT + [WRAP[0]]},
-    "C04": {"builds": BOTH, "mc": [WRAP[0], REFILL, INPLACE, COLUMNS, BREAK]},
+    "C04": {"builds": BOTH, "mc": [WRAP[0], REFILL, INPLACE, COLUMNS, mc("MC_Break", None, "MC_Break_t.cfg")] + LIVE_QUICK + LIVE_THOROUGH,
+            "replay_cap_quick": 4000},
     "C05": {"builds": BOTH, "mc": [WRAP[0], REL]},
     "C06": {"builds": BOTH, "mc": [FF, OPT[0]]},
     "C07": {"builds": BOTH, "mc": [FF, WRAP[0]]},
